@@ -35,34 +35,75 @@ func getPoolFacts(c *Ctx, rule string, vf *vmFacts) *poolFacts {
 		return nil
 	}
 	abortM := l.Method(modPath, "VM", "Abort")
+	// roles are decided on a method together with the helpers split out of it
+	// (callees inside the pool domain); among nested candidates (acquire ->
+	// _acquire) the innermost pool method has the role
+	dom := l.poolDomain()
+	type cand struct {
+		fn                            *ssa.Function
+		putsBack, callsAbort, configs bool
+		callees                       map[*ssa.Function]bool
+	}
+	var cands []*cand
 	for _, fn := range l.RepoFuncs(func(pp string) bool { return pp == modPath }) {
 		r := fn.Signature.Recv()
 		if r == nil || !isNamed(r.Type(), modPath, "vmPool") || fn.Parent() != nil {
 			continue
 		}
-		d, _ := vf.storedVMFields(fn)
-		putsBack, callsAbort := false, false
-		eachInstr(fn, func(ins ssa.Instruction) {
-			if ci, ok := ins.(ssa.CallInstruction); ok {
-				if f := ci.Common().StaticCallee(); f != nil {
-					if f.Name() == "Put" && f.Pkg != nil && f.Pkg.Pkg.Path() == "sync" {
-						putsBack = true
-					}
-					if f == abortM {
-						callsAbort = true
-					}
+		cd := &cand{fn: fn, callees: map[*ssa.Function]bool{}}
+		stored := map[string]bool{}
+		var rec func(g *ssa.Function, depth int)
+		rec = func(g *ssa.Function, depth int) {
+			d, _ := vf.storedVMFields(g)
+			for k := range d {
+				stored[k] = true
+			}
+			eachInstr(g, func(ins ssa.Instruction) {
+				ci, ok := ins.(ssa.CallInstruction)
+				if !ok {
+					return
+				}
+				f := ci.Common().StaticCallee()
+				if f == nil {
+					return
+				}
+				if f.Name() == "Put" && f.Pkg != nil && f.Pkg.Pkg.Path() == "sync" {
+					cd.putsBack = true
+				}
+				if f == abortM {
+					cd.callsAbort = true
+				}
+				if dom[f] && f != fn && !cd.callees[f] && depth < 3 && len(f.Blocks) > 0 {
+					cd.callees[f] = true
+					rec(f, depth+1)
+				}
+			})
+		}
+		rec(fn, 0)
+		cd.configs = len(stored) >= 3
+		cands = append(cands, cd)
+	}
+	innermost := func(has func(*cand) bool) *ssa.Function {
+		var out *ssa.Function
+		for _, cd := range cands {
+			if !has(cd) {
+				continue
+			}
+			inner := false
+			for _, o := range cands {
+				if o != cd && has(o) && cd.callees[o.fn] {
+					inner = true
 				}
 			}
-		})
-		switch {
-		case putsBack:
-			pf.release = fn
-		case callsAbort:
-			pf.abort = fn
-		case len(d) >= 3 && !putsBack:
-			pf.acquire = fn
+			if !inner {
+				out = cd.fn
+			}
 		}
+		return out
 	}
+	pf.release = innermost(func(cd *cand) bool { return cd.putsBack })
+	pf.abort = innermost(func(cd *cand) bool { return cd.callsAbort && !cd.putsBack })
+	pf.acquire = innermost(func(cd *cand) bool { return cd.configs && !cd.putsBack && !cd.callsAbort })
 	ok := c.Anchor(rule, "vmPool method that initialises a child VM from the root (acquire)", pf.acquire != nil)
 	ok = c.Anchor(rule, "vmPool method that returns a VM to the sync.Pool (release)", pf.release != nil) && ok
 	ok = c.Anchor(rule, "vmPool method that aborts the registered children", pf.abort != nil) && ok
@@ -92,8 +133,9 @@ func (pf *poolFacts) rootFieldLoad(vf *vmFacts, v ssa.Value, path ...string) boo
 			return false
 		}
 		if i == 0 {
-			// base must be load(&pool.root)
-			bu, ok := fa.X.(*ssa.UnOp)
+			// base must be load(&pool.root), possibly passed down to a helper
+			// with a single call site as a parameter
+			bu, ok := vf.l.paramArg(fa.X).(*ssa.UnOp)
 			if !ok {
 				return false
 			}
@@ -120,7 +162,7 @@ func ruleChildInit(c *Ctx, rule string, vf *vmFacts, pf *poolFacts, only map[str
 	scope = append(scope, vf.Run.AnonFuncs...)
 	scope = append(scope, vf.run.AnonFuncs...)
 	for _, fn := range scope {
-		if r := fn.Signature.Recv(); r != nil && isNamed(r.Type(), modPath, "vmPool") {
+		if l.poolDomain()[fn] {
 			continue
 		}
 		eachInstr(fn, func(ins ssa.Instruction) {
@@ -185,7 +227,7 @@ func propC14(c *Ctx) {
 			name := bcS.Field(i).Name()
 			reader := ""
 			for _, fn := range scope {
-				if r := fn.Signature.Recv(); r != nil && isNamed(r.Type(), modPath, "vmPool") {
+				if l.poolDomain()[fn] {
 					continue
 				}
 				for _, acc := range fieldAccesses([]*ssa.Function{fn}, modPath, "Bytecode", i) {
@@ -219,7 +261,7 @@ func propC14(c *Ctx) {
 			continue
 		}
 		var st *ssa.Store
-		eachInstr(pf.acquire, func(ins ssa.Instruction) {
+		eachInstrDeep(pf.acquire, 3, func(ins ssa.Instruction) {
 			if s, ok := ins.(*ssa.Store); ok {
 				if fa, ok := vf.isVMFieldAddr(s.Addr); ok && fa.Field == idx {
 					st = s
@@ -755,39 +797,7 @@ func rulePoolLock(c *Ctx, rule string, pf *poolFacts) {
 			if _, fresh := acc.Addr.X.(*ssa.Alloc); fresh {
 				continue
 			}
-			locked := false
-			eachInstr(fn, func(ins ssa.Instruction) {
-				cl, ok := ins.(*ssa.Call)
-				if !ok {
-					return
-				}
-				f := cl.Call.StaticCallee()
-				if f == nil || f.Name() != "Lock" || f.Pkg == nil || f.Pkg.Pkg.Path() != "sync" {
-					return
-				}
-				mfa, ok := isFieldAddrOf(cl.Call.Args[0], modPath, "vmPool", pf.fMu)
-				if !ok || !(mfa.X == acc.Addr.X || sameMem(mfa.X, acc.Addr.X)) {
-					return
-				}
-				if !instrDominates(cl, acc.Addr) {
-					return
-				}
-				// no explicit Unlock between
-				unlocked := false
-				eachInstr(fn, func(u ssa.Instruction) {
-					uc, ok := u.(*ssa.Call)
-					if !ok {
-						return
-					}
-					uf := uc.Call.StaticCallee()
-					if uf != nil && uf.Name() == "Unlock" && uf.Pkg != nil && uf.Pkg.Pkg.Path() == "sync" && instrDominates(cl, uc) && instrDominates(uc, acc.Addr) {
-						unlocked = true
-					}
-				})
-				if !unlocked {
-					locked = true
-				}
-			})
+			locked := poolLockedAt(l, pf, fn, acc.Addr.X, acc.Addr, 0)
 			key := fmt.Sprintf("%s | %s.vms", fnName(fn), describe(acc.Addr.X))
 			c.Check(rule, key, l.Pos(acc.Addr.Pos()), locked, "accessed under the pool's mutex", "the registry of child VMs is accessed without holding the pool's mutex: data race with Abort / acquire / release on other goroutines")
 		}
@@ -883,4 +893,74 @@ func ruleCtxAbort(c *Ctx, rule string, vf *vmFacts, abortM *ssa.Function) {
 			}
 		})
 	}
+}
+
+// poolLockedAt: the mutex of the pool value `base` is held when instruction
+// `at` of fn executes: a Lock on base.mu dominates it with no Unlock between;
+// or, for a helper whose call sites are all known (unexported, never used as a
+// value), base is a parameter and every call site passes a pool whose mutex is
+// held there (the caller-holds-the-lock convention).
+func poolLockedAt(l *Loaded, pf *poolFacts, fn *ssa.Function, base ssa.Value, at ssa.Instruction, depth int) bool {
+	locked := false
+	eachInstr(fn, func(ins ssa.Instruction) {
+		cl, ok := ins.(*ssa.Call)
+		if !ok {
+			return
+		}
+		f := cl.Call.StaticCallee()
+		if f == nil || f.Name() != "Lock" || f.Pkg == nil || f.Pkg.Pkg.Path() != "sync" {
+			return
+		}
+		mfa, ok := isFieldAddrOf(cl.Call.Args[0], modPath, "vmPool", pf.fMu)
+		if !ok || !(mfa.X == base || sameMem(mfa.X, base)) {
+			return
+		}
+		if !instrDominates(cl, at) {
+			return
+		}
+		// no explicit Unlock between
+		unlocked := false
+		eachInstr(fn, func(u ssa.Instruction) {
+			uc, ok := u.(*ssa.Call)
+			if !ok {
+				return
+			}
+			uf := uc.Call.StaticCallee()
+			if uf != nil && uf.Name() == "Unlock" && uf.Pkg != nil && uf.Pkg.Pkg.Path() == "sync" && instrDominates(cl, uc) && instrDominates(uc, at) {
+				unlocked = true
+			}
+		})
+		if !unlocked {
+			locked = true
+		}
+	})
+	if locked || depth >= 3 {
+		return locked
+	}
+	p, ok := base.(*ssa.Parameter)
+	if !ok || fn.Parent() != nil || l.AddressTaken(fn) || l.mayBeInvoked(fn) {
+		return false
+	}
+	idx := -1
+	for k, q := range fn.Params {
+		if q == p {
+			idx = k
+		}
+	}
+	cs := l.StaticCallers(fn)
+	if idx < 0 || len(cs) == 0 {
+		return false
+	}
+	for _, ci := range cs {
+		if _, isGo := ci.(*ssa.Go); isGo {
+			return false
+		}
+		if _, isDefer := ci.(*ssa.Defer); isDefer {
+			return false
+		}
+		if !poolLockedAt(l, pf, ci.Parent(), ci.Common().Args[idx], ci, depth+1) {
+			return false
+		}
+	}
+	return true
 }
